@@ -113,7 +113,10 @@ pub fn run(sc_threads: &[Vec<Value>], miri_seed: u64, rate: &str, sim_dir: &Path
         .arg(plan_file)
         .current_dir(sim_dir)
         .env("CARGO_NET_OFFLINE", "true")
-        .env("MIRIFLAGS", format!("-Zmiri-disable-isolation -Zmiri-seed={} -Zmiri-preemption-rate={}", miri_seed, rate))
+        .env("MIRIFLAGS", // Miri is used here as a deterministic scheduler (plus its data-race detector), not as an
+        // aliasing checker: the borrow-stack and validity checks are switched off, which about
+        // doubles the number of seeds per hour
+        format!("-Zmiri-disable-isolation -Zmiri-disable-stacked-borrows -Zmiri-disable-validation -Zmiri-seed={} -Zmiri-preemption-rate={}", miri_seed, rate))
         .env_remove("RUSTFLAGS")
         .output();
     let out = match out {
